@@ -29,7 +29,7 @@ PF_TABLE = [
     (r"block::Block::read", r"call:from_elem", r"read_size$", "C11.3 bounds read_size by the file length before this allocation"),
     (r"block::Block::read", r"call:(error|new)", r".*", "error construction"),
     (r"walrus::Walrus::startup_chore", r"assert:Overflow\(Add\)", r"^block_offset \| 10485760$", "the loop condition keeps block_offset + DEFAULT_BLOCK_SIZE <= MAX_FILE_SIZE (1 GiB)"),
-    (r"walrus::Walrus::startup_chore", r"assert:Overflow\(Add\)", r"^next_block_id \| 1$", "one increment per 10 MiB unit of the files present: far below 2^64"),
+    (r"walrus::Walrus::startup_chore", r"assert:Overflow\(Add\)", r"^(next_block_id|Add\(next_block_id, empty_units\)) \| 1$", "one increment per 10 MiB unit of the files present: far below 2^64"),
     (r"walrus::Walrus::startup_chore", r"assert:Overflow\(Add\)", r"^empty_units \| 1$", "at most MAX_FILE_SIZE / DEFAULT_BLOCK_SIZE = 100 increments per file; reset per file"),
     (r"walrus::Walrus::startup_chore", r"assert:Overflow\(Add\)", r"^next_block_id \| empty_units$", "both are bounded by the number of 10 MiB units in the files present"),
     (r"walrus::Walrus::startup_chore", r"assert:Overflow\(Add\)", r"^(used|in_block_off) \| read\(.*\) as Ok\.0\.1$", "consumed <= 256 + 2^32 per entry and the loop stops once in_block_off >= DEFAULT_BLOCK_SIZE"),
